@@ -6,7 +6,7 @@ from tokutil import *  # noqa
 from protocol import from_real
 
 ID = "C03"
-LEAN_MODULE = ["SCoda.Props.C01", "SCoda.Props.C01b", "SCoda.Props.C03b", "SCoda.Props.C10", "SCoda.Props.C03c"]
+LEAN_MODULE = ["SCoda.Props.C01", "SCoda.Props.C01b", "SCoda.Props.C03b", "SCoda.Props.C10", "SCoda.Props.C03c", "SCoda.Props.TokTie"]
 LEVEL = "proof"
 CLAUSES = [
     ("two consecutive calls threading the state emit (notes and bar ends) exactly what one call on the joined events emits; "
@@ -29,6 +29,8 @@ CLAUSES = [
     ("glue: where a call ends — on the onset of its last event if that is a bar line, else at the end of the bar containing it; hence a call on whole bars "
      "ends at the end of its last bar unless nothing in that bar moves the clock off the bar line (partial: known finding D19, refuted in general by a kernel-checked example)",
      ["SCoda.C01.call_end", "SCoda.C01.call_end_tokenise", "SCoda.C01.foldClock_cur", "SCoda.C01.call_stalls_on_barline"]),
+    ("TIE BY TRANSLATION, tokeniser: MultiTrackLargeVocabularyNotelikeTokeniser is re-translated statement by statement on every run (Gen/TokFns.lean, tools/py2lean_tok.py: __init__, _construct_dictionary, tokenise with its closure _apply_rest as a fuelled loop, detokenise, get_info, encode, decode; f-strings as string concatenation, dicts as association lists, floats as exact rationals) and each translation is proved equal to the hand model the theorems above are about, on rendered token strings: a call with a state dictionary is tokeniseCore started from the state read out of the dictionary, and writes the model's final state back into it; a call without one starts from the initial state",
+     ["SCoda.TokTie.tokenise_eq", "SCoda.TokTie.tokenise_eq'", "SCoda.TokTie.tokenise_fresh", "SCoda.TokTie.tokenise_fresh'", "SCoda.TokTie.tokenise_none", "SCoda.TokTie.stOfDict_nil", "SCoda.TokTie.tokenise_wrong_length", "SCoda.TokTie.tokenise_zero_denominator"]),
 ]
 RULE = ("valid pieces (1-3 tracks, 2-6 bars, signature changes, empty bars) split into bars by sequences_split_bars, regrouped "
         "by random partitions (thorough: all 2^(bars-1) partitions up to 6 bars) x sampled configurations; "
